@@ -177,7 +177,7 @@ _p(
     components=[comp.validators(["fx", "bits"]), comp.script("c15-fx-graphs", "BOUNDED stand-in", ["{ROOT}/bounded/c15_graphs.py"])],
     bounded=["whole-graph rewrite: real backend on all hand-built fx programs of <= 2 (quick) / <= 4 (thorough, sampled 400) call nodes over {F.linear, U.linear, F.sdpa, U.sdpa, relu, add} x {E4M3/E5M2 nearest, lossless E8M23}, compared bit for bit (outputs and gradients) with hand-inserted quantise_fwd/quantise_bwd", "the real TorchDynamo path: simulate_format on three small modules whose root is a container / a bare nn.Linear / an nn.Sequential x the same two format pairs, outputs and all gradients bit for bit against the hand-inserted reference"],
     uncovered=["the real TorchDynamo path (graph capture, guards, caching) is assumed beyond the bounded runs; the preconditions of that assumption the repo code is responsible for (user-code forward on root and children, cache reset before each compilation) are obligations of apply_transform"],
-    explanation="PROVED: quantise_fwd == (value Q_self(x), gradient unchanged) and quantise_bwd == (value unchanged, gradient Q_self(g)) from the real local autograd.Function classes; tuple_to_format(format_to_tuple(f)) == f on all four fields; each of the four wrappers == OP on the forward-quantised tensor operands (bias / mask / scalars untouched) with the output gradient quantised to bwd, using exactly the caller's formats; the argument splice binds every original parameter to its original value and the two format parameters to the caller's formats for the enumerated call shapes (failing shapes: known finding F4b); the backend replaces a matching node in place (order, positional and keyword users) and leaves every other node untouched (one generic iteration); simulate_fp8 is the E4M3 / E5M2 instance; a lossless format is the identity bit for bit for all |x| < 2^126 and every random draw. BOUNDED: the whole-graph comparison.",
+    explanation="PROVED: quantise_fwd == (value Q_self(x), gradient unchanged) and quantise_bwd == (value unchanged, gradient Q_self(g)) from the real local autograd.Function classes; tuple_to_format(format_to_tuple(f)) == f on all four fields; each of the four wrappers == OP on the forward-quantised tensor operands (bias / mask / scalars untouched) with the output gradient quantised to bwd, using exactly the caller's formats; the argument splice binds every original parameter to its original value and the two format parameters to the caller's formats for every enumerated call shape (positional prefix of any length, the rest by keyword or omitted: 188 shapes over the four targets; the failing shapes of known finding F4b were repaired in 658c13d); the backend replaces a matching node in place (order, positional and keyword users) and leaves every other node untouched (one generic iteration); simulate_fp8 is the E4M3 / E5M2 instance; a lossless format is the identity bit for bit for all |x| < 2^126 and every random draw. BOUNDED: the whole-graph comparison.",
 )
 
 _p(
